@@ -192,6 +192,12 @@ fn process_dir(
                 writeln!(&mut stderr(), "Error: {err}").unwrap();
             }
             Ok(entry) => {
+                // walkdir reports a broken symbolic link as an error, and errors are not
+                // subject to its min_depth filter; from_walkdir() turned it back into an entry.
+                if entry.depth() < config.min_depth {
+                    continue;
+                }
+
                 let mut matcher_io = matchers::MatcherIO::new(deps);
 
                 let new_dir = entry.path().parent().map(|x| x.to_path_buf());
